@@ -15,6 +15,7 @@ import (
 	"errors"
 	"fmt"
 	"io"
+	"io/fs"
 	"os"
 	"runtime"
 	"sort"
@@ -49,6 +50,8 @@ type runSpec struct {
 	Trace    bool                `json:"trace"`
 	Ovr      bool                `json:"ovr"`     // the resolver overrides google/protobuf/descriptor.proto (model file "d")
 	Collide  bool                `json:"collide"` // all files share one package and every requested file defines message Dup
+	SrcRes   bool                `json:"srcres"`  // realise the fault plan through SourceResolver{ImportPaths: p1, p2} + Accessor
+	FanIn    bool                `json:"fanin"`   // public flavour: every import-free file re-exports a hidden leaf that all files use
 	Opts     bool                `json:"opts"`    // every file defines and uses a custom option whose value holds a map (not traced)
 	Sched    [][]string          `json:"sched"`   // TLC-exported schedule: replayed step by step through the gates
 }
@@ -208,6 +211,9 @@ func render(spec *runSpec, f string) string {
 		return "pkg_" + x
 	}
 	fmt.Fprintf(&sb, "package %s;\n", pkg(f))
+	if spec.FanIn && len(spec.Imports[f]) == 0 && f != "zz" {
+		sb.WriteString("import public \"zz.proto\";\n")
+	}
 	for _, d := range spec.Imports[f] {
 		if spec.Public {
 			fmt.Fprintf(&sb, "import public \"%s\";\n", pathOf(d))
@@ -246,6 +252,11 @@ func render(spec *runSpec, f string) string {
 	}
 	for _, d := range used {
 		fmt.Fprintf(&sb, "  %s.M%s f%d = %d;\n", pkg(d), d, n, n)
+		n++
+	}
+	if spec.FanIn && f != "zz" {
+		// reachable through the chain of public imports
+		fmt.Fprintf(&sb, "  pkg_zz.Mzz fz = %d;\n", n)
 		n++
 	}
 	sb.WriteString("}\n")
@@ -546,6 +557,9 @@ func runOne(spec *runSpec) runResult {
 		}
 		texts[f+".proto"] = render(spec, f)
 	}
+	if spec.FanIn {
+		texts["zz.proto"] = "syntax = \"proto3\";\npackage pkg_zz;\nmessage Mzz { int32 x = 1; }\n"
+	}
 	dpProto := protodesc.ToFileDescriptorProto(descriptorpb.File_google_protobuf_descriptor_proto)
 	if spec.Ovr {
 		// the overriding descriptor.proto knows three more message options than the Go runtime's copy
@@ -649,6 +663,35 @@ func runOne(spec *runSpec) runResult {
 			func(reporter.ErrorWithPos) { mu.Lock(); res.Warnings++; mu.Unlock() })
 	}
 	var res0 protocompile.Resolver = resolver
+	if spec.SrcRes {
+		// the same fault plan through the library's own SourceResolver: the file exists under the second
+		// import path; the first one answers not-exist when healthy and fails as planned otherwise
+		res0 = &protocompile.SourceResolver{
+			ImportPaths: []string{"p1", "p2"},
+			Accessor: func(path string) (io.ReadCloser, error) {
+				switch {
+				case strings.HasPrefix(path, "p1/"):
+					name := strings.TrimPrefix(path, "p1/")
+					switch spec.Plan[id(name)] {
+					case "err":
+						return nil, errors.New("verif-resolve-fault")
+					case "panic":
+						panic("verif-panic:" + name)
+					case "short":
+						if text, ok := texts[name]; ok {
+							return io.NopCloser(&failingReader{r: strings.NewReader(text), n: len(text) / 2}), nil
+						}
+					}
+					return nil, fs.ErrNotExist
+				case strings.HasPrefix(path, "p2/"):
+					if text, ok := texts[strings.TrimPrefix(path, "p2/")]; ok {
+						return io.NopCloser(strings.NewReader(text)), nil
+					}
+				}
+				return nil, fs.ErrNotExist
+			},
+		}
+	}
 	if spec.Opts {
 		res0 = protocompile.WithStandardImports(resolver)
 	}
